@@ -118,6 +118,28 @@ theorem gen_isim (expf : Rat → Rat) (w : W) (ls : List Nat) (n : Nat)
       rfl
 
 
+/-- `isimDen` does not matter when the function returns early -/
+theorem gen_isim' (expf : Rat → Rat) (w : W) (ls : List Nat) (n : Nat)
+    (hls : ∀ k ∈ ls, k < 2 ^ 64) (hn : n < 2 ^ 64) (hden : 2 ≤ n → u64 ls.sum ≠ 0 → isimDen ls n ≠ 0) :
+    BBGen.jt_isim_from_sum expf (PV.arr w ls) (PV.int n) = isimPV ls n := by
+  by_cases h2 : 2 ≤ n
+  · by_cases h0 : u64 ls.sum = 0
+    · unfold BBGen.jt_isim_from_sum isimPV
+      have h2' : ¬ ((n : Int) < 2) := by omega
+      have h2'' : ¬ (n < 2) := by omega
+      simp only [lt_int_int, h2', decide_false, ite_bool, Bool.false_eq_true, if_false, h2'',
+        PV.astype, map_wrap_u64 ls hls, PV.npSum]
+      have hS : ls.sum % 2 ^ 64 = u64 ls.sum := rfl
+      rw [hS, h0]
+      simp
+    · exact gen_isim expf w ls n hls hn (hden h2 h0)
+  · unfold BBGen.jt_isim_from_sum isimPV
+    have : ((n : Int) < 2) := by omega
+    have h2'' : (n < 2) := by omega
+    simp [h2'', PV.nan, this]
+
+
+
 theorem rnd_natCast_lt {a : Nat} (h : a < 2 ^ 53) : rnd (a : Rat) = a := rnd_natCast_of_lt a h
 
 theorem half_exact (n : Nat) (hn : n < 2 ^ 53) :
@@ -211,15 +233,16 @@ theorem truediv_fsub_two (a b : Rat) :
 
 theorem gen_radius (expf : Rat → Rat) (w : W) (ls : List Nat) (n : Nat)
     (hk : ∀ k ∈ ls, k ≤ n) (hn : n + 1 < 2 ^ 53)
-    (hden : isimDen ls n ≠ 0) (hden1 : isimDen (ls1 ls n) (n + 1) ≠ 0) :
+    (hden : 2 ≤ n → u64 ls.sum ≠ 0 → isimDen ls n ≠ 0)
+    (hden1 : 2 ≤ n + 1 → u64 (ls1 ls n).sum ≠ 0 → isimDen (ls1 ls n) (n + 1) ≠ 0) :
     BBGen.jt_isim_radius_compl_from_sum expf (PV.arr w ls) (PV.int n) = PV.flt (radiusCompl ls n) := by
   have hls : ∀ k ∈ ls, k < 2 ^ 64 := fun k h => by have := hk k h; omega
   unfold BBGen.jt_isim_radius_compl_from_sum
   simp only [gen_centroid_unpacked expf w ls n hk (by omega), PV.npAdd, gen_centroid_length, if_true,
     zipWith_wrap_eq ls _ (gen_centroid_length ls n).symm, add_int_int]
   have hcast : ((n : Int) + 1) = ((n + 1 : Nat) : Int) := by push_cast; ring
-  rw [hcast, gen_isim expf w ls n hls (by omega) hden]
-  have h1 := gen_isim expf .u64 (ls1 ls n) (n + 1) (ls1_lt ls n) (by omega) hden1
+  rw [hcast, gen_isim' expf w ls n hls (by omega) hden]
+  have h1 := gen_isim' expf .u64 (ls1 ls n) (n + 1) (ls1_lt ls n) (by omega) hden1
   unfold ls1 at h1
   rw [h1]
   unfold radiusCompl isimPV
@@ -282,12 +305,12 @@ denominators of its two iSIM evaluations non-zero (no `x/0`) -/
 structure SumOk (s : Summary) : Prop where
   le : ∀ k ∈ s.ls, k ≤ s.n
   small : s.n + 1 < 2 ^ 53
-  den : isimDen s.ls s.n ≠ 0
-  den1 : isimDen (ls1 s.ls s.n) (s.n + 1) ≠ 0
+  den : 2 ≤ s.n → u64 s.ls.sum ≠ 0 → isimDen s.ls s.n ≠ 0
+  den1 : 2 ≤ s.n + 1 → u64 (ls1 s.ls s.n).sum ≠ 0 → isimDen (ls1 s.ls s.n) (s.n + 1) ≠ 0
 
 theorem gen_isim_ok (expf : Rat → Rat) (w : W) (s : Summary) (h : SumOk s) :
     BBGen.jt_isim_from_sum expf (PV.arr w s.ls) (PV.int s.n) = isimPV s.ls s.n :=
-  gen_isim expf w s.ls s.n (fun k hk => by have := h.le k hk; have := h.small; omega)
+  gen_isim' expf w s.ls s.n (fun k hk => by have := h.le k hk; have := h.small; omega)
     (by have := h.small; omega) h.den
 
 theorem gen_radius_ok (expf : Rat → Rat) (w : W) (s : Summary) (h : SumOk s) :
@@ -690,27 +713,6 @@ theorem isimDen_ne_zero (ks : List Nat) (n : Nat) (hn : 2 ≤ n)
   have := isim_den_pos ks n hn hk hS
   unfold denSum
   exact_mod_cast (by omega : (ks.map (fun k => k * (k - 1) / 2 + k * (n - k))).sum ≠ 0)
-
-/-- `isimDen` does not matter when the function returns early -/
-theorem gen_isim' (expf : Rat → Rat) (w : W) (ls : List Nat) (n : Nat)
-    (hls : ∀ k ∈ ls, k < 2 ^ 64) (hn : n < 2 ^ 64) (hden : 2 ≤ n → u64 ls.sum ≠ 0 → isimDen ls n ≠ 0) :
-    BBGen.jt_isim_from_sum expf (PV.arr w ls) (PV.int n) = isimPV ls n := by
-  by_cases h2 : 2 ≤ n
-  · by_cases h0 : u64 ls.sum = 0
-    · unfold BBGen.jt_isim_from_sum isimPV
-      have h2' : ¬ ((n : Int) < 2) := by omega
-      have h2'' : ¬ (n < 2) := by omega
-      simp only [lt_int_int, h2', decide_false, ite_bool, Bool.false_eq_true, if_false, h2'',
-        PV.astype, map_wrap_u64 ls hls, PV.npSum]
-      have hS : ls.sum % 2 ^ 64 = u64 ls.sum := rfl
-      rw [hS, h0]
-      simp
-    · exact gen_isim expf w ls n hls hn (hden h2 h0)
-  · unfold BBGen.jt_isim_from_sum isimPV
-    have : ((n : Int) < 2) := by omega
-    have h2'' : (n < 2) := by omega
-    simp [h2'', PV.nan, this]
-
 
 theorem gen_centroid_packed (expf : Rat → Rat) (w : W) (ls : List Nat) (n : Nat)
     (hk : ∀ k ∈ ls, k ≤ n) (hn : n < 2 ^ 53) :
